@@ -289,7 +289,8 @@ def judge_range(rec, prog, info):
     return None
 
 
-def judge_ids(rec, info):
+def judge_ids(rec, info, ns=None):
+    ns = ns or NS_MAIN
     """C14: ids handed out (NEXT calls and transactions) are pairwise distinct, and each is
     uuid5(namespace, decimal counter) of one of the counter values the generator handed out."""
     ids = []
@@ -305,7 +306,7 @@ def judge_ids(rec, info):
         return "the generator handed out counter %s twice" % sorted(x for x in olds if olds.count(x) > 1)[:1]
     if olds and olds != [(olds[0] + i) % W for i in range(len(olds))]:
         return "generator counters (in trace order) are not c0, c0+1, ...: %s" % olds[:8]
-    want = {str(uuid.uuid5(NS_MAIN, str(k))) for k in olds}
+    want = {str(uuid.uuid5(ns, str(k))) for k in olds}
     bad = [x for x in ids if x not in want]
     if bad:
         return "id %s is not uuid5(namespace, k) for any counter k the generator handed out in this run" % bad[0]
